@@ -1222,3 +1222,16 @@ package gohlslib
 //@   ensures result != nil ==> result.isLeading
 //@   ensures result == nil ==> forall(k, (0 <= k && k < len(m.streams)) ==> !m.streams[k].isLeading)
 //@ end
+
+// C16: BANDWIDTH / AVERAGE-BANDWIDTH. No division by zero for any list of segments (this found and fixed a
+// panic on listed segments of zero duration); peak >= mean; both are 0 only when nothing can be measured.
+//@ func bandwidth
+//@   props C16
+//@   arith math
+//@   requires forall(i, (0 <= i && i < len(segments)) ==> segments[i] != nil)
+//@   requires forall(i, (0 <= i && i < len(segments) && isF(segments[i])) ==> asF(segments[i]).storage != nil)
+//@   requires forall(i, (0 <= i && i < len(segments) && is(segments[i], *muxerSegmentMPEGTS)) ==> segments[i].(*muxerSegmentMPEGTS).storage != nil)
+//@   loop 1 invariant ri < len(segments) && durations >= 0 && sizes >= 0 && maxBandwidth >= 0
+//@   loop 1 invariant (durations == 0 && sizes == 0 && maxBandwidth == 0) || (durations > 0 && 8 * sizes * 1000000000 < (maxBandwidth + 1) * durations)
+//@   ensures result0 >= result1 && result1 >= 0
+//@ end
